@@ -951,25 +951,80 @@ func c05RestoreTimes(c *Ctx) {
 			}
 		}
 	}
-	// (2) the epoch sentinel: Chtimes skipped when MTime == time.Unix(0,0)
+	// (2) the epoch sentinel: Chtimes skipped when MTime == time.Unix(0,0).  Every successful
+	// return of the three functions either applied the times or took the edge on which the
+	// mtime was found *equal* to the epoch (the recorded finding); a success path that skips
+	// Chtimes for any other reason - a test of the seconds only, a wider range, an unrelated
+	// condition - loses modification times the finding does not describe.
 	sentinel := false
 	var pos token.Pos
+	isEpoch := func(v ssa.Value) bool {
+		for _, l := range leaves(v) {
+			cl, _ := callOf(l)
+			if cl == nil || callee(cl) != "time.Unix" {
+				return false
+			}
+			k0, ok0 := cl.Call.Args[0].(*ssa.Const)
+			k1, ok1 := cl.Call.Args[1].(*ssa.Const)
+			if !(ok0 && ok1 && constInt64(k0) == 0 && constInt64(k1) == 0) {
+				return false
+			}
+		}
+		return len(leaves(v)) > 0
+	}
 	for _, key := range []string{"LocalFS.CreateDir", "LocalFS.CreateFile", "LocalFS.CreateDevice"} {
 		fn := c.fn(key)
-		if fn == nil {
+		if fn == nil || len(calls(fn, named("os.Chtimes"))) == 0 {
 			continue
 		}
-		for _, call := range calls(fn, named("os.Chtimes")) {
-			// a return that skips Chtimes behind a comparison with time.Unix(0,0)
-			for _, u := range calls(fn, named("time.Unix")) {
-				a := u.Common().Args
-				k0, ok0 := a[0].(*ssa.Const)
-				k1, ok1 := a[1].(*ssa.Const)
-				if ok0 && ok1 && constInt64(k0) == 0 && constInt64(k1) == 0 && instrDominates(u.(ssa.Instruction), call.(ssa.Instruction)) {
-					sentinel = true
-					pos = u.Pos()
+		var other []string
+		paths := 0
+		h := &Hooks{
+			Call: func(st *State, call *ssa.Call) map[int]Val {
+				if callee(call) == "os.Chtimes" {
+					st.Emit("chtimes", "", call)
 				}
-			}
+				return nil
+			},
+			Branch: func(st *State, iff *ssa.If, taken bool) {
+				switch b := iff.Cond.(type) {
+				case *ssa.BinOp:
+					if (b.Op == token.EQL || b.Op == token.NEQ) && (isEpoch(b.X) || isEpoch(b.Y)) && (b.Op == token.EQL) == taken {
+						st.Flags["epoch"] = 1
+						pos = b.Pos()
+					}
+				case *ssa.Call:
+					if callee(b) == "(time.Time).Equal" && taken {
+						for _, a := range b.Call.Args {
+							if isEpoch(a) {
+								st.Flags["epoch"] = 1
+								pos = b.Pos()
+							}
+						}
+					}
+				}
+			},
+			Return: func(st *State, ret *ssa.Return, results []Val) {
+				if len(results) == 0 || results[len(results)-1].N == NNon {
+					return
+				}
+				paths++
+				if st.Count("chtimes") > 0 {
+					return
+				}
+				if st.Flags["epoch"] == 1 {
+					sentinel = true
+					return
+				}
+				other = append(other, fmt.Sprintf("return at %s (trail %s)", c.pos(ret.Pos()), strings.Join(st.Trail, ">")))
+			},
+		}
+		Explore(fn, fn.Blocks[0], 0, nil, NewState(), h)
+		c.paths += h.Paths
+		if len(other) > 0 {
+			c.bad(key+":times-always-restored", fn.Pos(), "a successful path leaves the entry without os.Chtimes although its mtime was not found equal to the Unix epoch: %s - modification times other than the exact sentinel value are not restored", other[0])
+		} else {
+			c.ok(key+":times-always-restored", fn.Pos(), "%d non-failing path(s): each applies os.Chtimes or took the mtime == epoch edge", paths)
 		}
 	}
 	if sentinel {
